@@ -237,3 +237,7 @@ mod test {
         (0..16).for_each(|i| assert_eq!(s.estimate(i), 0));
     }
 }
+
+#[cfg(all(transparencies_stretto_verif, any(kani, test)))]
+#[path = "/verif/harness/h_sketch.rs"]
+mod verif_harness;
